@@ -1,0 +1,70 @@
+//go:build verif
+
+// Package verifbridge re-exports functions of internal packages for the
+// external verification harness. It is only compiled with the build tag
+// "verif" and is not part of the library.
+package verifbridge
+
+import (
+	"io"
+
+	ocispec "github.com/opencontainers/image-spec/specs-go/v1"
+
+	"github.com/notaryproject/notation-core-go/signature"
+	"github.com/notaryproject/notation-go/internal/envelope"
+	"github.com/notaryproject/notation-go/internal/file"
+	nio "github.com/notaryproject/notation-go/internal/io"
+	"github.com/notaryproject/notation-go/internal/pkix"
+	"github.com/notaryproject/notation-go/internal/semver"
+)
+
+// Payload is envelope.Payload.
+type Payload = envelope.Payload
+
+// MediaTypePayloadV1 is envelope.MediaTypePayloadV1.
+const MediaTypePayloadV1 = envelope.MediaTypePayloadV1
+
+// ErrLimitExceeded is io.ErrLimitExceeded.
+var ErrLimitExceeded = nio.ErrLimitExceeded
+
+// ErrNotRegularFile is file.ErrNotRegularFile.
+var ErrNotRegularFile = file.ErrNotRegularFile
+
+// ErrNotDirectory is file.ErrNotDirectory.
+var ErrNotDirectory = file.ErrNotDirectory
+
+func ParseDistinguishedName(name string) (map[string]string, error) {
+	return pkix.ParseDistinguishedName(name)
+}
+
+func IsSubsetDN(dn1, dn2 map[string]string) bool { return pkix.IsSubsetDN(dn1, dn2) }
+
+func IsValidFileName(name string) bool { return file.IsValidFileName(name) }
+
+func WriteFile(tempDir, path string, content []byte) error {
+	return file.WriteFile(tempDir, path, content)
+}
+
+func CopyToDir(src, dst string) error { return file.CopyToDir(src, dst) }
+
+func CopyDirToDir(src, dst string) error { return file.CopyDirToDir(src, dst) }
+
+func TrimFileExtension(name string) string { return file.TrimFileExtension(name) }
+
+func SemverIsValid(v string) bool { return semver.IsValid(v) }
+
+func ComparePluginVersion(v, w string) (int, error) { return semver.ComparePluginVersion(v, w) }
+
+func LimitWriter(w io.Writer, limit int64) io.Writer { return nio.LimitWriter(w, limit) }
+
+func ValidatePayloadContentType(p *signature.Payload) error {
+	return envelope.ValidatePayloadContentType(p)
+}
+
+func SanitizeTargetArtifact(d ocispec.Descriptor) ocispec.Descriptor {
+	return envelope.SanitizeTargetArtifact(d)
+}
+
+// SetWriteFileHook installs a callback invoked at the step boundaries of
+// file.WriteFile (see internal/file/verif_on.go). nil removes it.
+func SetWriteFileHook(h func(point, path string)) { file.SetVerifHook(h) }
